@@ -1820,16 +1820,27 @@ BTree_rangeSearch(BTree *self, PyObject *args, PyObject *kw, char type)
         /* Have to check the hard way:  see how the endpoints compare. */
         UNLESS (PER_USE(lowbucket))
             goto err_and_decref_buckets;
-        COPY_KEY(first, lowbucket->keys[lowoffset]);
+        COPY_KEY(first, lowbucket->keys[lowoffset]); INCREF_KEY(first);
         PER_UNUSE(lowbucket);
 
         UNLESS (PER_USE(highbucket))
+        {
+            DECREF_KEY(first);
             goto err_and_decref_buckets;
+        }
         COPY_KEY(last, highbucket->keys[highoffset]);
         PER_UNUSE(highbucket);
 
+        /* neither bucket is pinned here: keep the two keys alive across the comparison */
+        INCREF_KEY(last);
         TEST_KEY_SET_OR(cmp, first, last)
+        {
+            DECREF_KEY(first);
+            DECREF_KEY(last);
             goto err_and_decref_buckets;
+        }
+        DECREF_KEY(first);
+        DECREF_KEY(last);
         if (cmp > 0)
                 goto empty_and_decref_buckets;
     }
